@@ -281,7 +281,7 @@ class Ctx:
     sigs = dict(re.findall(r'SIG (\S+) (\d+)', txt))
     self.sigs_seen = getattr(self, 'sigs_seen', {})
     self.sigs_seen.update(sigs)
-    pinned = load_sigs(self.pid) if pin else None   # only the indexed property theorems are pinned (Ctx.lean)
+    pinned = load_sigs(pin) if pin else None   # pin = name of the index (lean/index/<pin>.txt / .sig), set by Ctx.lean
     if pinned is not None:
       for t in sorted(set(pinned) - set(theorems)):
         self.breaks.append(dict(kind='proof', name=t, detail='theorem is pinned in the .sig file but no longer indexed '
@@ -314,7 +314,7 @@ class Ctx:
     ok = self.lean_build(list(gen_targets) + [module, 'dinodrv'])
     files = [module.replace('.', '/') + '.lean'] + list(extra_files)
     if ok:
-      self.audit(module, theorems, files, pin=True)
+      self.audit(module, theorems, files, pin=os.path.splitext(index_file)[0])
     else:
       for t in theorems:
         self.obligations.append(dict(name=t, kind='theorem', ok=False, detail='module does not build'))
